@@ -1067,6 +1067,12 @@ func c06DeliverNonNil(c *Ctx) {
 				if len(rs) == 2 && ir.TypeStr(rs[1].Type()) == "error" && !ir.IsNilConst(rs[1]) {
 					continue
 				}
+				// ... and so is nil returned together with ok == false
+				if len(rs) == 2 {
+					if k, ok := rs[1].(*ssa.Const); ok && k.Value != nil && k.Value.String() == "false" {
+						continue
+					}
+				}
 				if w := mayBeNil(sc, rs[0], ret, d+1, seen); w != "" {
 					return "the result of " + fname(sc) + ", which can return nil without an error"
 				}
